@@ -411,6 +411,11 @@ BUILTIN_SHADOWS = {
     'mido.sockets': {'int': tokens.sym_int, 'ord': sym_ord},
     'mido.syx': {'bytearray': SymByteArray},
     'mido.midifiles.units': {'int': tokens.sym_int},
+    # (not needed by the pinned code; keeps the checks fast if these modules start to buffer in bytearrays)
+    'mido.tokenizer': {'bytearray': SymByteArray},
+    'mido.parser': {'bytearray': SymByteArray},
+    'mido.messages.decode': {'bytearray': SymByteArray},
+    'mido.messages.encode': {'bytearray': SymByteArray},
 }
 
 
